@@ -166,10 +166,31 @@ func (e *Exec) callInvoke(fr *Frame, st *State, cc *ssa.CallCommon, recv Val, ar
 		if m, ok := models[k]; ok {
 			e.sc.used["model:"+k] = true
 			e.countCall(st, k)
-			return m(e, fr, st, args, cc, pos)
+			r := m(e, fr, st, args, cc, pos)
+			e.noteSucc(st, k, r, cc.Signature())
+			return r
 		}
 	}
 	return e.libDefault(fr, st, keys[0], args, cc.Signature(), pos)
+}
+
+// noteSucc: succeeded("key") for calls answered by a library model (contract applications and the
+// library default keep the flag themselves): did the call return a nil error?
+func (e *Exec) noteSucc(st *State, key string, res Val, sig *types.Signature) {
+	if !e.succNamed[key] || sig == nil || sig.Results().Len() == 0 {
+		return
+	}
+	if !isErrorType(sig.Results().At(sig.Results().Len() - 1).Type()) {
+		return
+	}
+	last := res
+	if res.Tuple != nil {
+		last = res.Tuple[len(res.Tuple)-1]
+	}
+	if last.T == "" {
+		return
+	}
+	e.hset(st, e.succFlag(key), eq(last.T, "nil_iface"))
 }
 
 func (e *Exec) callStatic(fr *Frame, st *State, fn *ssa.Function, bind []Val, args []Val, cc *ssa.CallCommon, pos token.Pos) Val {
@@ -227,7 +248,9 @@ func (e *Exec) callKey(fr *Frame, st *State, key string, fn *ssa.Function, bind 
 	if m, ok := models[key]; ok {
 		e.sc.used["model:"+key] = true
 		e.countCall(st, key)
-		return m(e, fr, st, args, cc, pos)
+		r := m(e, fr, st, args, cc, pos)
+		e.noteSucc(st, key, r, sig)
+		return r
 	}
 	if fn != nil && len(fn.Blocks) > 0 && fn.Pkg != nil && e.sc.isRepoPkg(fn.Pkg.Pkg) {
 		// closures have no API of their own: execute in place. Tiny helpers likewise.
@@ -419,6 +442,7 @@ func (e *Exec) havocAll(st *State) {
 // libDefault: a library function without contract or model. Havoc what is reachable through the
 // arguments (slice contents, pointed-to objects), unconstrained result.
 func (e *Exec) libDefault(fr *Frame, st *State, key string, args []Val, sig *types.Signature, pos token.Pos) Val {
+	e.sawCallee(key)
 	pure := pureLib(key)
 	if !pure {
 		e.sc.uncontracted[fmt.Sprintf("%s (library function without contract: arguments' referents havocked, result unconstrained)", key)] = true
@@ -520,6 +544,7 @@ func (e *Exec) applyContract(fr *Frame, st *State, fc *FuncContract, args []Val,
 		}
 	}
 	e.sc.used["contract:"+fc.FullKey] = true
+	e.sawCallee(fc.Key)
 	if fc.Flags["noframe"] != "" && len(fc.ModClauses) > 0 {
 		e.sc.used["the modifies clause of "+fc.FullKey+" is assumed, not checked (flag noframe)"] = true
 	}
@@ -583,6 +608,9 @@ func (e *Exec) calledFlag(key string) string { return e.pathFlag("called", key) 
 
 // countEffects: the path counters / flags a call of key updates, added to its effect set.
 func (e *Exec) countEffects(key string, eff []string) []string {
+	if e.succNamed[key] {
+		eff = append(eff, e.succFlag(key))
+	}
 	if e.callsNamed[key] {
 		eff = append(eff, e.callsCounter(key))
 	}
@@ -595,6 +623,7 @@ func (e *Exec) countEffects(key string, eff []string) []string {
 // countCall: calls("key") / called("key") bookkeeping for calls that are not contract applications
 // (functions executed in place, library models).
 func (e *Exec) countCall(st *State, key string) {
+	e.sawCallee(key)
 	if e.callsNamed[key] {
 		c := e.callsCounter(key)
 		e.hset(st, c, "(+ "+e.hget(st, c)+" 1)")
